@@ -2,7 +2,7 @@
 the shape of the tests in URI.location / URI.__str__, and the Unicode tables of the running
 interpreter that the URI parser depends on (`\\S`, `\\d`, what int() strips and reads as digits)."""
 import ast
-from tools.gen.gen import generator, parse, find_class, find_func, need, GenError, HEADER, clist, cN, ctext, cZ, ast_sha
+from tools.gen.gen import generator, parse, find_class, find_func, need, GenError, HEADER, clist, cN, ctext, cZ, ast_sha, tree_module, try_sha
 
 _UNI = None
 
@@ -144,30 +144,107 @@ def hash_structure(fn, state):
     return True, [names.index(e.id) for e in arg.elts]
 
 
+PROBE_BASES = [("PYRO", "obj", None, "host.name", 4444), ("PYRO", "obj", "sock/Name", None, None),
+               ("PYROMETA", {"a", "b"}, None, "h", 9090), ("PYRONAME", "n", None, None, None),
+               ("PYRONAME", "obj", None, "fe80::a", 0)]
+
+
+def _probe_variants(base):
+    """states that differ from `base` in exactly one position of the state tuple: {field: [state, ...]}"""
+    proto, obj, sock, host, port = base
+    out = {0: [], 1: [], 2: [], 3: [], 4: []}
+    if not isinstance(obj, set):
+        out[0] += [("PYRONAME" if proto == "PYRO" else "PYRO", obj, sock, host, port)]
+        out[1] += [(proto, obj.swapcase(), sock, host, port), (proto, obj + "x", sock, host, port), (proto, obj[:-1] + "?", sock, host, port)]
+    else:
+        out[1] += [(proto, {"a", "B"}, sock, host, port), (proto, {"a"}, sock, host, port), (proto, {"a", "b", ""}, sock, host, port)]
+    if sock is not None:
+        out[2] += [(proto, obj, sock.swapcase(), host, port), (proto, obj, sock + " ", host, port), (proto, obj, sock[:-1] + "3", host, port)]
+    if host is not None:
+        out[3] += [(proto, obj, sock, host.swapcase(), port), (proto, obj, sock, host + ".", port), (proto, obj, sock, host[:-1] + "z", port),
+                   (proto, obj, sock, "", port)]
+        out[4] += [(proto, obj, sock, host, port + 1), (proto, obj, sock, host, -port - 1), (proto, obj, sock, host, port + 2 ** 64)]
+    return out
+
+
+def eq_hash_probed(tree):
+    """-> (eq_exact, eq_fields, hash_exact, hash_fields, ne_is_not_eq) observed on the URI class of the tree under test:
+    a field is in eq_fields iff EVERY one-field variation of it makes the URIs unequal (both ways round); eq_exact iff that holds
+    for all five fields, equal states compare equal and a non-URI never does; a field is in hash_fields iff every one-field
+    variation changes the hash; hash_exact iff equal states hash equal and hashing never raises."""
+    import copy
+    core = tree_module(tree, "Pyro5.core")
+
+    def mk(st):
+        u = core.URI.__new__(core.URI)
+        u.__setstate__(copy.deepcopy(st))
+        return u
+    eq_sens = {f: True for f in range(5)}
+    hash_sens = {f: True for f in range(5)}
+    seen = {f: 0 for f in range(5)}
+    ident_ok = hash_ok = ne_ok = True
+    for base in PROBE_BASES:
+        a, a2 = mk(base), mk(base)
+        ident_ok = ident_ok and (a == a2) is True and (a2 == a) is True and (a == a) is True and (a == base) is False and (a == str(a)) is False
+        ne_ok = ne_ok and (a != a2) is False
+        try:
+            ha = hash(a)
+            hash_ok = hash_ok and ha == hash(a2)
+        except Exception:
+            hash_ok, ha = False, None
+        for f, variants in _probe_variants(base).items():
+            for st in variants:
+                b = mk(st)
+                seen[f] += 1
+                e1, e2 = a == b, b == a
+                ne_ok = ne_ok and (a != b) is (not e1) and (b != a) is (not e2)
+                if e1 or e2:
+                    eq_sens[f] = False
+                try:
+                    if ha is None or hash(b) == ha:
+                        hash_sens[f] = False
+                except Exception:
+                    hash_ok = False
+                    hash_sens[f] = False
+    need(all(seen[f] > 0 for f in range(5)), "probe battery does not vary every state field")
+    eq_fields = [f for f in range(5) if eq_sens[f]]
+    hash_fields = [f for f in range(5) if hash_sens[f]] if hash_ok else []
+    return bool(ident_ok and len(eq_fields) == 5), eq_fields, bool(hash_ok), hash_fields, bool(ne_ok)
+
+
 @generator("GenUri", "Pyro5/core.py", "Pyro5/configure.py")
 def gen_uri(tree):
     mod, _ = parse(tree, "Pyro5/core.py")
     cls = find_class(mod, "URI")
-    # uriRegEx = re.compile(<literal>)  — no flags
-    rx = [n for n in cls.body if isinstance(n, ast.Assign) and len(n.targets) == 1
-          and isinstance(n.targets[0], ast.Name) and n.targets[0].id == "uriRegEx"]
-    need(len(rx) == 1, "URI.uriRegEx not assigned exactly once")
-    call = rx[0].value
-    need(isinstance(call, ast.Call) and isinstance(call.func, ast.Attribute) and call.func.attr == "compile"
-         and isinstance(call.func.value, ast.Name) and call.func.value.id == "re" and len(call.args) == 1
-         and not call.keywords, "URI.uriRegEx is not re.compile(<pattern>) without flags")
-    uri_rx = const_str(call.args[0], "URI.uriRegEx pattern")
+    # the two patterns: uriRegEx (class attribute) and the bracketed-ipv6 location pattern.  The ast reader accepts the
+    # pattern literal wherever in class URI it is handed to re.compile/match/fullmatch/search (inline in a method, or
+    # precompiled as a class attribute under any name); if that does not identify them, uriRegEx is read as evaluated.
+    # HOW a pattern is applied (match / fullmatch) is not pinned here: behaviour is compared by the harness on every string.
+    modes = []
+    pats = []         # (assigned class-attribute name or None, pattern text)
+    for node in ast.walk(cls):
+        if isinstance(node, ast.Call) and isinstance(node.func, ast.Attribute) and isinstance(node.func.value, ast.Name) \
+                and node.func.value.id == "re" and node.func.attr in ("compile", "match", "fullmatch", "search") and node.args \
+                and isinstance(node.args[0], ast.Constant) and isinstance(node.args[0].value, str):
+            owner = [n.targets[0].id for n in cls.body if isinstance(n, ast.Assign) and n.value is node
+                     and len(n.targets) == 1 and isinstance(n.targets[0], ast.Name)]
+            pats.append((owner[0] if owner else None, node.args[0].value, len(node.args) + len(node.keywords)))
+    named = [p for p in pats if p[0] == "uriRegEx"]
+    if len(named) == 1 and named[0][2] == 1:
+        uri_rx = named[0][1]
+        modes.append("uriRegEx: ast")
+    else:
+        rxobj = getattr(tree_module(tree, "Pyro5.core").URI, "uriRegEx", None)
+        need(hasattr(rxobj, "pattern") and isinstance(rxobj.pattern, str), "URI.uriRegEx is not a compiled str pattern")
+        import re as _re
+        need(rxobj.flags & ~_re.UNICODE == 0, "URI.uriRegEx is compiled with flags")
+        uri_rx = rxobj.pattern
+        modes.append("uriRegEx: evaluated")
+    others = sorted({p[1] for p in pats if p[0] != "uriRegEx" and p[1] != uri_rx})
+    need(len(others) == 1, "expected exactly one more pattern literal (the bracketed ipv6 location) in class URI, found %d" % len(others))
+    ip6_rx = others[0]
     init = find_func(mod, "__init__", "URI")
-    uses = [n for n in ast.walk(init) if isinstance(n, ast.Call) and isinstance(n.func, ast.Attribute)
-            and isinstance(n.func.value, ast.Attribute) and n.func.value.attr == "uriRegEx"]
-    need(len(uses) == 1 and uses[0].func.attr == "match", "URI.__init__ does not use uriRegEx.match exactly once")
-    # the ipv6 pattern in _parseLocation: re.match(<literal>, location)
     ploc = find_func(mod, "_parseLocation", "URI")
-    rms = [n for n in ast.walk(ploc) if isinstance(n, ast.Call) and isinstance(n.func, ast.Attribute)
-           and isinstance(n.func.value, ast.Name) and n.func.value.id == "re"]
-    need(len(rms) == 1 and rms[0].func.attr == "match" and len(rms[0].args) == 2 and not rms[0].keywords,
-         "_parseLocation does not contain exactly one re.match(<pattern>, location)")
-    ip6_rx = const_str(rms[0].args[0], "ipv6 pattern")
     # string literals used with startswith / partition / slicing in _parseLocation
     lits = sorted({n.value for n in ast.walk(ploc) if isinstance(n, ast.Constant) and isinstance(n.value, str)
                    and len(n.value) <= 4})
@@ -192,6 +269,13 @@ def gen_uri(tree):
                     and isinstance(ne[0].value.op, ast.Not) and isinstance(ne[0].value.operand, ast.Call)
                     and isinstance(ne[0].value.operand.func, ast.Attribute) and ne[0].value.operand.func.attr == "__eq__"
                     and _self_attr(ne[0].value.operand.func) == "__eq__" and len(ne[0].value.operand.args) == 1)
+    if eq_exact and hash_exact and ne_is_not_eq:
+        modes.append("eq/hash: ast")
+    else:
+        # the methods are not in one of the recognised shapes (helper calls, shortcuts, one-expression forms ...):
+        # second reader = probe the class of the tree under test with states that differ in exactly one field
+        eq_exact, eq_fields, hash_exact, hash_fields, ne_is_not_eq = eq_hash_probed(tree)
+        modes.append("eq/hash: probed")
     ws, intws, dz = unicode_tables()
     out = HEADER % "Pyro5/core.py, Pyro5/configure.py and the interpreter's Unicode tables"
     out += "(* uriRegEx = %s *)\n" % uri_rx.replace("*)", "* )")
@@ -215,7 +299,7 @@ def gen_uri(tree):
     out += "Definition dzero_table : list N := %s.\n" % clist([cN(c) for c in dz])
     return out, {"uri_regex": uri_rx, "ipv6_regex": ip6_rx, "ns_port": ports[0], "literals": lits, "slices": slices,
                  "eq_exact": eq_exact, "eq_fields": eq_fields, "hash_exact": hash_exact,
-                 "hash_fields": hash_fields, "ne_is_not_eq": ne_is_not_eq, "n_ws": len(ws), "n_intws": len(intws), "n_dzero": len(dz),
+                 "hash_fields": hash_fields, "ne_is_not_eq": ne_is_not_eq, "mode": "; ".join(modes), "n_ws": len(ws), "n_intws": len(intws), "n_dzero": len(dz),
                  "ast_sha": {"__init__": ast_sha(init), "_parseLocation": ast_sha(ploc),
-                             "location": ast_sha(find_func(mod, "location", "URI")),
-                             "__str__": ast_sha(find_func(mod, "__str__", "URI"))}}
+                             "location": try_sha(lambda: find_func(mod, "location", "URI")),
+                             "__str__": try_sha(lambda: find_func(mod, "__str__", "URI"))}}
